@@ -658,6 +658,8 @@ def reuse_twin(CR, cfg, draw, events):
 
 def renamed_peer(a):
     """A one-to-one renaming of the peer addresses that REVERSES their order (as tuples and as numbers)."""
+    if len(a) != 2 or ":" in str(a[0]):
+        return (str(a[0]) + "9", 65535 - int(a[1])) + tuple(a[2:])          # an IPv6 peer (4-tuple)
     ip, port = a
     return (".".join(str(255 - int(o)) for o in ip.split(".")), 65535 - int(port))
 
